@@ -16,7 +16,7 @@ pub fn prop() -> Prop {
         max_len: 600,
         quick: 15_000,
         thorough: 400_000,
-        rule: "choice sequence -> a family per case: the original; 3-6 variants obscured by generated target sets (both modes, three actions), including the same target set under each of the three actions and the same set encrypted twice (different nonces); a re-decoded copy of every member; an envelope with one more assertion; 1-2 unrelated envelopes. All ordered pairs and 20 sampled triples. oracle: is_equivalent_to(a,b) <=> model digests equal; is_identical_to(a,b) and a==b <=> equivalent AND equal obscuration signature (pre-order list of (path, elided|encrypted|compressed) read through case()); reflexive, symmetric, transitive; identical => equivalent; every member identical to its re-decoded copy; a variant in which >=1 element changed case is equivalent and NOT identical to its source. non-trivial: family contains >=2 equivalent-but-not-identical members; distinct by FNV-64 of (encoding, target sets)",
+        rule: "choice sequence -> a family per case: the original; 3-6 variants obscured by generated target sets (both modes, three actions), including the same target set under each of the three actions and the same set encrypted twice (different nonces); a re-decoded copy of every member; an envelope with one more assertion; 1-2 unrelated envelopes. All ordered pairs and 20 sampled triples. oracle: is_equivalent_to(a,b) <=> model digests equal; is_identical_to(a,b) and a==b <=> equivalent AND equal obscuration signature (pre-order list of (path, elided|encrypted|compressed) read through case()); reflexive, symmetric, transitive; identical => equivalent; every member identical to its re-decoded copy; a variant in which >=1 element changed case is equivalent and NOT identical to its source. non-trivial: family contains >=2 equivalent-but-not-identical members; distinct by FNV-64 of (encoding, target sets); one case in ten under 33-40 wrappers",
         assumptions: &["two members with equal digests have equal content (SHA-256 collision freedom), so equal obscuration signatures mean equal structure"],
         extra: None,
     }
